@@ -57,6 +57,48 @@ class ConcatenatedData(Concatenated, Data):
         return None
 
     @property
+    def name(self) -> str:
+        """
+        :obj:`str` Name of the data: also the label of its values in the concatenated
+        arrays of the group and the key of its parent's reference to it.
+        """
+        return self._name
+
+    @name.setter
+    def name(self, new_name: str):
+        old_name = getattr(self, "_name", None)
+        new_name = self.fix_up_name(new_name)
+
+        if (
+            not self.on_file
+            or getattr(self, "_parent", None) is None
+            or old_name in (None, new_name)
+        ):
+            self._name = new_name
+            self.workspace.update_attribute(self, "attributes")
+            return
+
+        if not new_name:
+            raise ValueError("The name of concatenated data cannot be empty.")
+
+        if new_name in self.parent.get_data_list():
+            raise ValueError(
+                f"Data with name '{new_name}' already present on '{self.parent.name}'."
+            )
+
+        # Move the values and the parent's reference over to the new label
+        values = self.values
+        self.concatenator.update_array_attribute(self, old_name, remove=True)
+        parent_attr = self.concatenator.get_concatenated_attributes(self.parent.uid)
+        parent_attr.pop(f"Property:{old_name}", None)
+        parent_attr[f"Property:{new_name}"] = as_str_if_uuid(self.uid)
+        self._name = new_name
+        self.workspace.update_attribute(self, "attributes")
+
+        if values is not None:
+            self.concatenator.update_array_attribute(self, new_name)
+
+    @property
     def parent(self) -> ConcatenatedObject:
         return self._parent
 
